@@ -557,6 +557,57 @@ func c01SSESpellingCase(spelling string) (obs, sig, msg string) {
 	return "all calls completed", "", ""
 }
 
+// c01LargeResultCase: a tool result of the given size over the HTTP transports (the SDK's client on
+// the SDK's handlers, in process): streamable with SSE or JSON responses, with or without an event
+// store, and the legacy HTTP+SSE pair.  The call completes with exactly that result, and so does a
+// small call after it.
+func c01LargeResultCase(transport string, size int) (obs, sig, msg string) {
+	fail := func(s, format string, a ...any) (string, string, string) {
+		return "", "c01 large-result " + s, fmt.Sprintf(format, a...) + fmt.Sprintf(" [%s, result of %d bytes]", transport, size)
+	}
+	ctx, cancel := context.WithTimeout(context.Background(), 10*time.Minute)
+	defer cancel()
+	s := NewServer(&Implementation{Name: "srv", Version: "1"}, &ServerOptions{Logger: quietLogger})
+	AddTool(s, &Tool{Name: "blob"}, func(ctx context.Context, r *CallToolRequest, in struct {
+		N int `json:"n"`
+	}) (*CallToolResult, any, error) {
+		return &CallToolResult{Content: []Content{&TextContent{Text: strings.Repeat("z", in.N)}}}, nil, nil
+	})
+	var tr Transport
+	switch transport {
+	case "http+sse":
+		hx := &hxTransport{Handler: NewSSEHandler(func(*http.Request) *Server { return s }, nil)}
+		tr = &SSEClientTransport{Endpoint: "http://srv.test/sse", HTTPClient: hx.client()}
+	default:
+		o := &StreamableHTTPOptions{Logger: quietLogger, JSONResponse: strings.Contains(transport, "json")}
+		if strings.Contains(transport, "store") {
+			o.EventStore = NewMemoryEventStore(nil)
+		}
+		hx := &hxTransport{Handler: NewStreamableHTTPHandler(func(*http.Request) *Server { return s }, o)}
+		tr = &StreamableClientTransport{Endpoint: "http://srv.test/mcp", HTTPClient: hx.client()}
+	}
+	cs, err := NewClient(&Implementation{Name: "cli", Version: "1"}, &ClientOptions{Logger: quietLogger}).Connect(ctx, tr, &ClientSessionOptions{ProtocolVersion: "2025-06-18"})
+	if err != nil {
+		return fail("setup", "connect: %v", err)
+	}
+	defer func() {
+		cs.Close()
+		for ss := range s.Sessions() {
+			ss.Close()
+		}
+	}()
+	for i, n := range []int{size, 3} {
+		r, err := cs.CallTool(ctx, &CallToolParams{Name: "blob", Arguments: map[string]any{"n": n}})
+		switch {
+		case err != nil:
+			return fail("call-failed", "call %d (a result of %d bytes) failed although the server answered it and the connection is healthy: %v", i, n, err)
+		case len(r.Content) != 1 || len(r.Content[0].(*TextContent).Text) != n:
+			return fail("wrong-result", "call %d returned a result of the wrong size", i)
+		}
+	}
+	return "completed", "", ""
+}
+
 func TestVerifC01AfterClose(t *testing.T) {
 	env := verifx.LoadEnv("C01")
 	res := env.NewResult()
@@ -613,6 +664,30 @@ func TestVerifC01AfterClose(t *testing.T) {
 					ioc.Record(idx, obs, 2, func() string { return desc })
 				}
 			}
+		}
+	}
+	lr := env.NewCases(res, "api/large-results-over-http")
+	for _, transport := range []string{"streamable-sse", "streamable-sse+store", "streamable-json", "http+sse"} {
+		for _, size := range []int{70 << 10, 1<<20 + 10, 4<<20 + 10, 9 << 20} {
+			idx, mine := lr.Next()
+			if !mine {
+				continue
+			}
+			var obs, sig, msg string
+			desc := fmt.Sprintf("%s, result of %d bytes", transport, size)
+			func() {
+				defer func() {
+					if r := recover(); r != nil && sig == "" {
+						sig, msg = "c01 large-result panic-or-leak", fmt.Sprintf("%v [%s]", r, desc)
+					}
+				}()
+				synctest.Test(t, func(t *testing.T) { obs, sig, msg = c01LargeResultCase(transport, size) })
+			}()
+			if sig != "" {
+				lr.Violate(idx, sig, msg, 2)
+				continue
+			}
+			lr.Record(idx, obs, 2, func() string { return desc })
 		}
 	}
 	sp := env.NewCases(res, "api/sse-client-event-spellings")
